@@ -307,7 +307,15 @@ def c11_state(ctx):
     state_discipline(ctx, ('bespokeasm.assembler.line_object',))
 
 
-RULES = [c11_1, c11_2, c11_3, c11_4, c11_5, c11_consume, c11_values, c11_state]
+def c11_path(ctx):
+    """The bytes a directive describes reach the image only if the source line reaches the factory as written (C18.3: only leading and
+    trailing blanks are dropped) and every unmuted line's bytes are put into the image map (C03.1)."""
+    from rules.c18 import c18_3
+    from rules.c03 import c03_1
+    c18_3(ctx)
+    c03_1(ctx)
+
+RULES = [c11_1, c11_2, c11_3, c11_4, c11_5, c11_consume, c11_values, c11_state, c11_path]
 
 _D = 'assembler/line_object/data_line.py'
 _F = 'assembler/line_object/directive_line/fill_data.py'
